@@ -445,6 +445,9 @@ impl Check for C11 {
         let oh = 1 + rng.below(2);
         let mut ocfg = GenCfg::swarm(rng, oh);
         ocfg.size = 4 + rng.below(12);
+        // KF-C11-2 quarantine: symbol-keyed properties hash by a symbol id that keeps counting
+        // across runs, which shifts the hash-table enumeration order of objects with > 2 keys
+        ocfg.f_symbol = false;
         let observer = ProgCase::generate(rng, ocfg, HoleVariant::Order, "w");
         let points = match tier {
             Tier::Quick => Points::Sample { n: 12, seed: rng.next_u64() },
